@@ -24,6 +24,7 @@ import (
 
 	"github.com/pkg/errors"
 	"go.uber.org/multierr"
+	"google.golang.org/grpc/codes"
 	"google.golang.org/grpc/status"
 	pb "google.golang.org/protobuf/proto"
 
@@ -765,11 +766,36 @@ func (lc *leaderController) RangeScan(ctx context.Context, request *proto.RangeS
 	)
 }
 
+// validateWriteRequest refuses the requests that no replica will ever be able to apply
+// (see kv.generateUniqueKeyFromSequences). They must not reach the log: an entry that fails
+// to apply stops the followers and fails every later BecomeLeader that has to replay it.
+func validateWriteRequest(request *proto.WriteRequest) error {
+	for _, put := range request.Puts {
+		if len(put.SequenceKeyDelta) == 0 {
+			continue
+		}
+		if put.PartitionKey == nil {
+			return status.Error(codes.InvalidArgument, kv.ErrMissingPartitionKey.Error())
+		}
+		if put.SequenceKeyDelta[0] == 0 {
+			return status.Error(codes.InvalidArgument, kv.ErrSequenceDeltaIsZero.Error())
+		}
+	}
+	return nil
+}
+
 func (lc *leaderController) WriteBlock(ctx context.Context, request *proto.WriteRequest) (*proto.WriteResponse, error) {
+	if err := validateWriteRequest(request); err != nil {
+		return nil, err
+	}
 	return lc.writeBlock(ctx, func(_ int64) *proto.WriteRequest { return request })
 }
 
 func (lc *leaderController) Write(ctx context.Context, request *proto.WriteRequest, cb concurrent.Callback[*proto.WriteResponse]) {
+	if err := validateWriteRequest(request); err != nil {
+		cb.OnCompleteError(err)
+		return
+	}
 	lc.write(ctx, func(_ int64) *proto.WriteRequest { return request }, cb)
 }
 
